@@ -973,4 +973,4 @@ def r01m(ctx):
                 ctx.ok(cid, c.module.loc(p.stmt), f"the parent is dropped after reading its parameter(s) {sorted(read & params)}")
             else:
                 ctx.bad(cid, c.module.loc(p.stmt), f"`return self` drops the parent {[K.name for K in classes]} on the strength of {derived or 'no parent attribute at all'}, which is not one of its declared parameters {sorted(params)[:6]}...: a parent that was asked for something else (divisions, a frequency, a partition size) and merely happens to satisfy the test loses its effect, and evaluating a derived attribute of the parent runs the optimizer from inside a rewrite rule")
-    ctx.floor("rules that drop their parent", n, 2)
+    ctx.floor("rules that drop their parent", n, 1)
